@@ -210,11 +210,13 @@ def run_property(mod, tier: str, seed: int, replay: str | None = None) -> int:
         mo = core.run_model([mc])[0]
         return "error" in mo or bool(mod.diff(c, mo["ok"], io))
 
-    for c, kind, fails, io, mo in oracle_found[:2]:
+    for c, kind, fails, io, mo in oracle_found:
         sig = fails[0].split(":")[0]
         kf = [k for k in known if k.get("signature") == sig and mod.matches_known(k, c)]
         if kf:
             reported_known.add(kf[0]["id"])
+            continue
+        if nrep >= 2:       # two replays are enough; witnesses of recorded findings do not use the slots up
             continue
         small = shrink(mod, c, is_oracle_failure) if not replay else c
         io2 = mod.run_impl(small)
